@@ -381,6 +381,23 @@ Definition xmax (ty : limit_type) (n smax : N) : N :=
 Definition eff_limit (L X : N) : N := if ((L <? UMAX) || (X <=? UMAX))%N then L else X.
 Definition eff_prefetch (L P X : N) : N := if ((L * P <? UMAX) || (X <=? L * P))%N then P else X.
 Definition smax_of {A} (sizeN : A -> N) (l : list A) : N := fold_right N.max 0%N (map sizeN l).
+(** for an input: the largest value [limit()] can take, the effective limit and prefetch factor *)
+Definition eff_X {A} (sizeN : A -> N) (ty : limit_type) (input : list A) : N :=
+  xmax ty (N.of_nat (length input)) (smax_of sizeN input).
+Definition eff_lim {A} (sizeN : A -> N) (ty : limit_type) (limit_ : N) (input : list A) : N :=
+  eff_limit (N.max limit_ 1) (eff_X sizeN ty input).
+Definition eff_pre {A} (sizeN : A -> N) (ty : limit_type) (prefetch limit_ : N) (input : list A) : N :=
+  eff_prefetch (N.max limit_ 1) (N.max prefetch 1) (eff_X sizeN ty input).
+(** no threshold is reached by saturation: the (clamped) product limit * prefetch is below
+    usize::MAX, or no value of [limit()] on the input exceeds usize::MAX *)
+Definition no_sat {A} (sizeN : A -> N) (ty : limit_type) (prefetch limit_ : N) (input : list A) : Prop :=
+  (N.max limit_ 1 * N.max prefetch 1 < UMAX \/ eff_X sizeN ty input <= UMAX)%N.
+(** the value of the limit clause over machine integers: item count, or count x largest size *)
+Definition limitN {A} (sizeN : A -> N) (ty : limit_type) (b : list A) : N :=
+  match ty with
+  | BatchSize => N.of_nat (length b)
+  | Padded => (N.of_nat (length b) * smax_of sizeN b)%N
+  end.
 
 (** * val glue.  input = (sort shuffle prefetch limit ty seed sizes) as in C06_Model.v, where
     prefetch, limit and the sizes may be written (hi lo) = hi * 2^32 + lo (values of 2^62 and more) *)
@@ -428,11 +445,7 @@ Definition machine_agree (v i : val) : bool :=
 (** ** the executable statement over machine integers: the clauses of [check_C06] with the sizes,
     the limit and the products in [N] *)
 Definition mlookup (items : list mitem) (i : nat) : mitem := nth i items (i, W).
-Definition mlimitN (ty : limit_type) (b : list mitem) : N :=
-  match ty with
-  | BatchSize => N.of_nat (length b)
-  | Padded => (N.of_nat (length b) * fold_right N.max 0 (map misize b))%N
-  end.
+Definition mlimitN (ty : limit_type) (b : list mitem) : N := limitN misize ty b.
 Definition mlimit_okb (ty : limit_type) (L : N) (b : list mitem) : bool :=
   (length b <=? 1) || (mlimitN ty b <=? L)%N.
 Fixpoint mgreedyb (ty : limit_type) (L : N) (bs : list (list mitem)) : bool :=
